@@ -716,6 +716,7 @@ func typedAPI(repM, repU *Report, wM, wU *CaseWriter, r *rand.Rand, thorough boo
 	apiFuncTargets(repM, repU, r)
 	apiHookKeyOrder(repM, repU, r)
 	apiInterleavedTaps(repM)
+	apiCtxBuilders(repM, repU)
 	apiKeysNaNAndCycles(repM, "C08")
 	apiUnicodeFieldNames(repU)
 	apiOddsAndEnds(repM, repU)
@@ -2378,6 +2379,251 @@ func apiEndedStreamsAndSinkMarshal(rep *Report, r *rand.Rand) {
 				rep.violate("C14", "collect-value", fmt.Sprintf("value %d of a Sink.Marshal chain read back with CollectValueTokens: [%s] (%v), expected [%s]", i, descTokens(toks), e, descTokens(xs)), "Sink.Marshal chain")
 				break
 			}
+		}
+	}
+}
+
+// ---- round 7: state carried by sink / token / tree VALUES, option builders ----
+
+// EncodedLen and Hash driven by hand with ONE reused Token variable: the count is right after every token, the digest
+// is the digest of the stream
+func apiHandDrivenSinks(rep *Report, ts []sb.Token, full []byte, desc string) {
+	if len(ts) == 0 || len(full) > 100000 {
+		return
+	}
+	n := 0
+	var bad string
+	err := guard(func() error {
+		sink := sb.EncodedLen(&n, nil)
+		var tok sb.Token // one variable for the whole walk
+		sofar := 0
+		for i := range ts {
+			tok = ts[i]
+			var e error
+			sink, e = sink(&tok)
+			if e != nil {
+				return e
+			}
+			sofar += len(runEncode(ts[i:i+1], 0, 0).bytes)
+			if n != sofar {
+				bad = fmt.Sprintf("after token %d EncodedLen's target holds %d, the encoding so far has %d bytes", i, n, sofar)
+				return nil
+			}
+		}
+		return nil
+	})
+	rep.Evaluations++
+	rep.count("api:hand-driven-sinks")
+	if err != nil || bad != "" {
+		rep.violate("C02", "encoded-len", fmt.Sprintf("EncodedLen driven token by token (as Sink.Marshal and a Tee do): %s %v", bad, err), desc)
+	}
+}
+
+func apiHandDrivenHash(rep *Report, ts []sb.Token, f hashFn, want []byte, desc string) {
+	var sum []byte
+	err := guard(func() error {
+		sink := sb.Hash(f.new, &sum, nil)
+		var tok sb.Token // one variable for the whole walk: a sink may not keep the pointer
+		for i := 0; i <= len(ts) && sink != nil; i++ {
+			if i < len(ts) {
+				tok = ts[i]
+			} else {
+				tok = sb.Token{}
+			}
+			var e error
+			sink, e = sink(&tok)
+			if e != nil {
+				return e
+			}
+		}
+		return nil
+	})
+	rep.Evaluations++
+	rep.count("api:hand-driven-hash")
+	if err != nil || !bytes.Equal(sum, want) {
+		rep.violate("C09", "sink-hash-not-merkle", fmt.Sprintf("a Hash sink driven by a loop that reuses one Token variable gives %x (%v), the stream hashes to %x", sum, err, want), desc)
+		rep.violate("C10", "substitution-changes-hash", fmt.Sprintf("a Hash sink driven by a loop that reuses one Token variable gives %x (%v), the stream hashes to %x", sum, err, want), desc)
+	}
+}
+
+// a CollectTokens sink value used for one stream after another, the caller emptying the target in between
+func apiCollectorReuse(rep *Report, r *rand.Rand) {
+	var toks sb.Tokens
+	sink := sb.CollectTokens(&toks)
+	for i := 0; i < 6; i++ {
+		ts := smallTokens(r, 1+r.Intn(6))
+		toks = toks[:0]
+		err := guard(func() error { return sb.Copy(tokensFrom(ts), sink) })
+		rep.Evaluations++
+		rep.count("api:collector-reuse")
+		if err != nil || !tokensExactEq(toks, ts) {
+			rep.violate("C14", "delivery", fmt.Sprintf("a CollectTokens sink used for its stream number %d (target emptied before): collected [%s] (%v), the stream is [%s]", i+1, descTokens(toks), err, descTokens(ts)), "CollectTokens sink reused")
+			return
+		}
+	}
+	// two collectors made up-front for one target, fed one after the other: the target holds both streams
+	var both sb.Tokens
+	s1, s2 := sb.CollectTokens(&both), sb.CollectTokens(&both)
+	a, b := smallTokens(r, 3), smallTokens(r, 2)
+	e1 := guard(func() error { return sb.Copy(tokensFrom(a), s1) })
+	e2 := guard(func() error { return sb.Copy(tokensFrom(b), s2) })
+	if e1 != nil || e2 != nil || !tokensExactEq(both, append(append([]sb.Token{}, a...), b...)) {
+		rep.violate("C14", "delivery", fmt.Sprintf("two collectors on one target collected [%s] (%v %v), expected [%s] then [%s]", descTokens(both), e1, e2, descTokens(a), descTokens(b)), "two CollectTokens sinks on one target")
+	}
+}
+
+// the option builders compose: every way of writing the same options gives the same behaviour
+func apiCtxBuilders(repM, repU *Report) {
+	type T struct {
+		A int
+		B string
+		C []int
+	}
+	v := T{A: 0, B: "b"}
+	ctxs := map[string]sb.Ctx{
+		"Ctx{SkipEmpty: true}.Strict()":               sb.Ctx{SkipEmptyStructFields: true}.Strict(),
+		"Ctx{Strict: true}.SkipEmpty()":               sb.Ctx{DisallowUnknownStructFields: true}.SkipEmpty(),
+		"Ctx{}.SkipEmpty().Strict()":                  sb.Ctx{}.SkipEmpty().Strict(),
+		"DefaultCtx.Strict().SkipEmpty()":             sb.DefaultCtx.Strict().SkipEmpty(),
+		"Ctx{SkipEmpty: true, Strict: true}":          {SkipEmptyStructFields: true, DisallowUnknownStructFields: true},
+		"Ctx{IgnoreFuncs: true}.SkipEmpty().Strict()": sb.Ctx{IgnoreFuncs: true}.SkipEmpty().Strict(),
+		"DefaultCtx.WithPath(x).SkipEmpty().Strict()": sb.DefaultCtx.WithPath("x").SkipEmpty().Strict(),
+	}
+	want := []sb.Token{tokK(sb.KindObject), tokS("B"), tokS("b"), tokK(sb.KindObjectEnd)}
+	unknown := []sb.Token{tokK(sb.KindObject), tokS("B"), tokS("b"), tokS("Zzz"), tokI(1), tokK(sb.KindObjectEnd)}
+	for name, c := range ctxs {
+		mc := c
+		if mc.Marshal == nil {
+			mc.Marshal = sb.MarshalValue
+		}
+		ts, err := collectN(sb.MarshalCtx(mc, v), 1000)
+		repM.Evaluations++
+		repM.count("api:ctx-builders")
+		if err != nil || !tokensExactEq(ts, want) {
+			repM.violate("C16", "skip-empty-lost", fmt.Sprintf("marshalling under %s gives [%s] (%v), the empty fields A and C must be omitted: [%s]", name, descTokens(ts), err, descTokens(want)), name)
+		}
+		uc := c
+		uc.Unmarshal = sb.UnmarshalValue
+		var back T
+		e := guard(func() error {
+			return copyBudget(tokensFrom(unknown), sb.UnmarshalValue(uc, reflect.ValueOf(&back), nil))
+		})
+		repU.Evaluations++
+		if classOf(e) != "EUnknownField" {
+			repU.violate("C16", "strict-unknown-accepted", fmt.Sprintf("unmarshalling an object with an unknown field under %s: %v, the strict option must reject it", name, e), name)
+		}
+	}
+	// each option alone, built either way
+	for name, c := range map[string]sb.Ctx{"Ctx{}.SkipEmpty()": sb.Ctx{}.SkipEmpty(), "DefaultCtx.SkipEmpty()": sb.DefaultCtx.SkipEmpty(), "Ctx{IgnoreFuncs: true}.SkipEmpty()": sb.Ctx{IgnoreFuncs: true}.SkipEmpty()} {
+		mc := c
+		if mc.Marshal == nil {
+			mc.Marshal = sb.MarshalValue
+		}
+		ts, err := collectN(sb.MarshalCtx(mc, v), 1000)
+		if err != nil || !tokensExactEq(ts, want) {
+			repM.violate("C16", "skip-empty-lost", fmt.Sprintf("marshalling under %s gives [%s] (%v)", name, descTokens(ts), err), name)
+		}
+		uc := c
+		uc.Unmarshal = sb.UnmarshalValue
+		var back T
+		if e := guard(func() error {
+			return copyBudget(tokensFrom(unknown), sb.UnmarshalValue(uc, reflect.ValueOf(&back), nil))
+		}); e != nil {
+			repU.violate("C16", "unknown-field-not-skipped", fmt.Sprintf("without the strict option (%s) an unknown field must be skipped: %v", name, e), name)
+		}
+	}
+}
+
+// cycles that pass through a Tuple / an SBMarshaler on every round; trees edited in place
+type tupNode struct {
+	T sb.Tuple
+	N *tupNode
+}
+
+func apiCyclesThroughMarshalers(rep *Report) {
+	a := &tupNode{}
+	a.T = sb.Tuple{a}
+	b := &tupNode{}
+	b.N = &tupNode{T: sb.Tuple{1, b}}
+	// (a user-written MarshalSB that marshals a pointer to its own receiver never passes through the library's
+	// pointer handling - the hook is taken first - so the library cannot see that cycle: outside C18)
+	var boxed any
+	boxed = sb.Tuple{&boxed}
+	for name, v := range map[string]any{"a node whose Tuple holds the node": a, "a cycle alternating a pointer and a Tuple": b, "a Tuple holding a pointer to the interface that holds it": &boxed} {
+		var err error
+		var n int
+		var leaked int
+		e := withWatchdog(20*time.Second, &leaked, func() error {
+			return guard(func() error {
+				s := sb.Marshal(v)
+				for n = 0; n < 3_000_000; n++ {
+					var t sb.Token
+					if err = s.Next(&t); err != nil || t.Invalid() {
+						return nil
+					}
+				}
+				return errDiverge
+			})
+		})
+		rep.Evaluations++
+		rep.count("api:cycles-through-marshalers")
+		switch {
+		case classOf(e) == "EDiverge":
+			rep.violate("C18", "marshal-diverges", fmt.Sprintf("more than %d tokens without an end: a cycle through a marshaler is never detected", n), name)
+		case e != nil || classOf(err) != "ECyclic":
+			rep.violate("C18", "cycle-not-reported", fmt.Sprintf("Marshal returned %v (%v) after %d tokens, expected a CyclicPointer marshal error", err, e, n), name)
+		}
+	}
+}
+
+// a tree is its owner's: rewriting the tokens of its nodes in place must not reach anybody else's tokens
+func apiTreeEditsStayPrivate(rep *Report, props ...string) {
+	v := []any{nil, []*int{nil, nil}, map[string]any{"k": nil}, sb.Tuple{nil}, math.NaN(), struct{ P *int }{}}
+	before, _ := marshalTokens(v, nil)
+	tr, err := sb.TreeFromStream(tokensFrom(before))
+	if err != nil {
+		return
+	}
+	var walk func(t *sb.Tree)
+	walk = func(t *sb.Tree) {
+		if t.Token != nil {
+			t.Token.Kind = sb.KindInt
+			t.Token.Value = 99
+		}
+		for _, s := range t.Subs {
+			walk(s)
+		}
+	}
+	tr2, _ := sb.TreeFromStream(tokensFrom(before)) // a second tree of the same stream, built BEFORE the edit
+	walk(tr)
+	after, e2 := marshalTokens(v, nil)
+	tr3, e3 := sb.TreeFromStream(tokensFrom(before)) // and a third one built after it
+	var it2, it3 []sb.Token
+	if tr2 != nil {
+		it2, _ = collect(tr2.Iter())
+	}
+	if tr3 != nil && e3 == nil {
+		it3, _ = collect(tr3.Iter())
+	}
+	if !tokensExactEq(it2, before) || !tokensExactEq(it3, before) {
+		for _, p := range props {
+			key := "tree-edit-leaks"
+			if p == "C19" {
+				key = "concurrent-result-differs"
+			}
+			rep.violate(p, key, fmt.Sprintf("after the nodes of one tree were rewritten in place, another tree of the same stream iterates to [%s] and a tree built afterwards to [%s]; the stream is [%s]", truncate(descTokens(it2), 150), truncate(descTokens(it3), 150), truncate(descTokens(before), 150)), "a tree edited in place")
+		}
+	}
+	rep.Evaluations++
+	rep.count("api:tree-edits")
+	ok := e2 == nil && tokensExactEq(before, after) && sb.Nil.Kind == sb.KindNil && sb.NaN.Kind == sb.KindNaN && sb.Min.Kind == sb.KindMin && sb.Max.Kind == sb.KindMax && sb.Nil.Value == nil
+	if !ok {
+		for _, p := range props {
+			key := "tree-edit-leaks"
+			if p == "C19" {
+				key = "concurrent-result-differs"
+			}
+			rep.violate(p, key, fmt.Sprintf("after the nodes of one tree were rewritten in place, marshalling an unrelated value gives [%s] (%v) instead of [%s]; sb.Nil=%v", truncate(descTokens(after), 200), e2, truncate(descTokens(before), 200), sb.Nil), "a tree edited in place")
 		}
 	}
 }
